@@ -79,8 +79,13 @@ def match_tag(token, regex=match_tag_prefix_and_name):
     token = token[end:]
 
     attrs = d['attrs'] = []
+    pos = 0
     for m in match_single_attribute.finditer(token):
         attr = groupdict(m, token)
+        if m.start() > pos:
+            # Text which is not attribute syntax is kept as it is.
+            attr['space'] = token[pos:m.start()] + attr['space']
+        pos = m.end()
         alt_value = attr.pop('alt_value', None)
         if alt_value is not None:
             attr['value'] = alt_value
@@ -92,6 +97,10 @@ def match_tag(token, regex=match_tag_prefix_and_name):
             attr['eq'] = ''
         attrs.append(attr)
         d['suffix'] = token[m.end():]
+
+    if d['suffix'] is None:
+        d['space'] = token[:0]
+        d['suffix'] = token
 
     return d
 
